@@ -237,7 +237,10 @@ func (s *session) do(in *Event) error {
 			return fmt.Errorf("stage into unknown tx %d", in.Tx)
 		}
 		if _, err := s.w.Stage(id, Brs[in.B-1], in.Tbl, fmt.Sprintf("staged %d", s.seq)); err != nil {
-			return err
+			if _, defect := err.(*StageDefect); !defect {
+				return err
+			}
+			// the projection below says what the command did instead; the specification's Stage does not explain it
 		}
 	case "txcommit", "txdiscard":
 		id, ok := s.txid(in.Tx)
